@@ -2,6 +2,7 @@ package main
 
 import (
 	"fmt"
+	"os"
 	"go/constant"
 	"go/token"
 	"go/types"
@@ -354,11 +355,13 @@ func (eng *Engine) totalInit(ms *ssa.MakeSlice) bool {
 		var hdr *ssa.BasicBlock
 		var storeBlk *ssa.BasicBlock
 		var rets []*ssa.Return
+		var later []ssa.Instruction // uses other than the filling stores: they must come after the loop
 		for _, r := range *ms.Referrers() {
 			switch r := r.(type) {
 			case *ssa.IndexAddr:
 				if isRangeIndexOf(r.Index, xs) != nil {
-					return false
+					later = append(later, r)
+					continue
 				}
 				h := r.Index.(*ssa.BinOp).X.(*ssa.Phi).Block()
 				if hdr != nil && hdr != h {
@@ -379,7 +382,11 @@ func (eng *Engine) totalInit(ms *ssa.MakeSlice) bool {
 				rets = append(rets, r)
 			case *ssa.DebugRef:
 			default:
-				return false
+				if ri, ok := r.(ssa.Instruction); ok {
+					later = append(later, ri)
+				} else {
+					return false
+				}
 			}
 		}
 		if hdr == nil || storeBlk == nil {
@@ -405,9 +412,18 @@ func (eng *Engine) totalInit(ms *ssa.MakeSlice) bool {
 				return false
 			}
 		}
+		// any other use (a call that is handed the slice, a conversion, a read) happens after the loop too
+		for _, u := range later {
+			if !(exit == u.Block() || exit.Dominates(u.Block())) {
+				return false
+			}
+		}
 		return true
 	}()
 	eng.initMake[ms] = res
+	if traceAI || os.Getenv("SPDXVERIF_TRACE_INIT") != "" {
+		fmt.Fprintf(os.Stderr, "totalInit %s in %s = %v\n", ms.Name(), ms.Parent().Name(), res)
+	}
 	return res
 }
 
@@ -637,6 +653,11 @@ func (eng *Engine) execUnOp(t *ssa.UnOp, env *Env) []*Env {
 			e := le.env
 			v := eng.readAt(e, le.obj, le.path, t.Type())
 			oi := e.objs[le.obj]
+			if v.K == KBot && oi != nil && oi.ElemCell {
+				// an element of a collection nothing was ever stored into: the collection is empty on this
+				// path, the read cannot happen (its bounds obligation is engine-2's)
+				continue
+			}
 			strong := oi != nil && !oi.Summary && !oi.ElemCell
 			if !strong {
 				v.Src = nil
